@@ -46,8 +46,8 @@ FS_JSON = [{'1': '10.9.0.0/16'}, {'1': '10.9.0.0/16', '3': '=6'}, {'2': '172.16.
 VPN = [('100:1', '10.5.0.0/16'), ('100:2', '10.5.0.0/16'), ('1.1.1.1:7', '10.6.1.0/24')]
 
 
-def enc_attrs(a):
-    out = rc.a_origin(a['origin']) + rc.a_as_path([(2, a['path'])], True) + rc.a_next_hop(a['nh'])
+def enc_attrs(a, as4=True):
+    out = rc.a_origin(a['origin']) + rc.a_as_path([(2, a['path'])], as4) + rc.a_next_hop(a['nh'])
     if a['med'] is not None:
         out += rc.a_med(a['med'])
     if a.get('comm'):
@@ -87,11 +87,12 @@ class Changes(object):
 
 
 class Run(object):
-    def __init__(self, ibgp=False):
+    def __init__(self, ibgp=False, as4=True):
         self.ibgp = ibgp
+        self.as4 = as4         # False: the peer does not advertise the 4-octet-AS capability (AS numbers travel in 2 octets)
         kw = {'remote_as': 65001} if ibgp else {}
         self.sim = Sim(rib=True, hold_time=0, idle_hold_time=1, afi_safi=('ipv4', 'flowspec', 'vpnv4'), **kw)
-        self.c = ss.establish(self.sim, caps=[rc.cap_mp(1, 1), rc.cap_mp(1, 133), rc.cap_mp(1, 128), rc.cap(2)], as4=True)
+        self.c = ss.establish(self.sim, caps=[rc.cap_mp(1, 1), rc.cap_mp(1, 133), rc.cap_mp(1, 128), rc.cap(2)], as4=as4)
         assert self.sim.state == 'ESTABLISHED', self.sim.state
         self.reset_model()
         self.nontrivial = False
@@ -133,7 +134,7 @@ class Run(object):
             proto = self.c.protocol
             if any(proto.adj_rib_in.get(f) for f in proto.adj_rib_in):
                 out.append(('rib-not-empty-after-drop', 'adj_rib_in after connectionLost: %r' % (proto.adj_rib_in,)))
-            est = ss.cooperate(sim, r.now + 100, peer_hold=0)
+            est = ss.cooperate(sim, r.now + 100, peer_hold=0, caps=None if self.as4 else [rc.cap_mp(1, 1), rc.cap(2)], as4=None if self.as4 else False)
             if est is None:
                 return out + [('harness:not-reestablished', 'could not re-establish')]
             self.c = ss.live_connectors(sim)[-1]
@@ -167,7 +168,7 @@ class Run(object):
             if side == 'peer':
                 # 'dirty': the bits beyond the prefix length are set on the wire (RFC 4271: irrelevant) - same routes
                 tb = 0xFF if (len(op) > 1 and op[-2] == 'dirty') else 0
-                msg = rc.update(withdrawn=b''.join(rc.prefix4(p, trailing=tb) for p in wd), attrs=enc_attrs(a) if a else b'',
+                msg = rc.update(withdrawn=b''.join(rc.prefix4(p, trailing=tb) for p in wd), attrs=enc_attrs(a, self.as4) if a else b'',
                                 nlri=b''.join(rc.prefix4(p, trailing=tb) for p in ann))
                 r.peer_send(self.c, msg)
             else:
@@ -180,6 +181,27 @@ class Run(object):
                 code, body = sim.rest('POST', '/v1/peer/%s/send/update' % PEER, json_body=req)
                 if code != 200 or not body or body.get('status') is not True:
                     out.append(('send-rejected:%s' % k, '%r -> %s %r' % (req, code, body)))
+        elif k == 'ann-big-as':
+            # ['ann-big-as', prefix idxs, variant]: a REST announcement whose AS_PATH holds an AS number above 65535.  On a
+            # 2-octet-AS session the agent may refuse to build it; whatever it does, the sent counter moves exactly when the
+            # Adj-RIB-Out it reports has changed (model-free: the table is read before and after)
+            ann = [PREFIXES[i] for i in op[1]]
+            path = [[65001, 70000], [70000], [65001, 4200000000]][op[2] % 3]
+            code0, b0 = sim.rest('POST', '/v1/peer/%s/adj-rib-out' % PEER, json_body={'data': PREFIXES})
+            req = {'attr': {'1': 0, '2': [[2, path]], '3': '10.0.0.1'}, 'nlri': ann}
+            sim.rest('POST', '/v1/peer/%s/send/update' % PEER, json_body=req)
+            r.settle(fire_due=True)
+            code1, b1 = sim.rest('POST', '/v1/peer/%s/adj-rib-out' % PEER, json_body={'data': PREFIXES})
+            if code0 == 200 and code1 == 200 and b0 and b1:
+                for p in PREFIXES:
+                    g0, g1 = b0['data'].get(p), b1['data'].get(p)
+                    if g0 != g1:
+                        changed['send'].add('ipv4')
+                    if g1:
+                        self.rib_out[p] = {int(kk): vv for kk, vv in g1.items()}
+                    else:
+                        self.rib_out.pop(p, None)
+            self.nontrivial = True
         elif k == 'mp-both':
             # one UPDATE / one REST request with MP_REACH and MP_UNREACH of the same family: announce one entry, withdraw
             # another.  ['mp-both', 'fs'|'vpn', announce idx, withdraw idx, label, side]
@@ -199,7 +221,7 @@ class Run(object):
             if wi in table:
                 del table[wi]
                 changed[act].add(fam)
-            base = rc.a_origin(0) + rc.a_as_path([(2, [65002])], True)
+            base = rc.a_origin(0) + rc.a_as_path([(2, [65002])], self.as4)
             if side == 'peer':
                 if famk == 'fs':
                     at = base + rc.a_mp_reach(1, 133, b'', rc.fs_rule(FS_RULES[ai])) + rc.a_mp_unreach(1, 133, rc.fs_rule(FS_RULES[wi]))
@@ -238,7 +260,7 @@ class Run(object):
             elif idx in table:
                 del table[idx]
                 changed['received'].add(fam)
-            base = rc.a_origin(0) + rc.a_as_path([(2, [65002])], True)
+            base = rc.a_origin(0) + rc.a_as_path([(2, [65002])], self.as4)
             if mk == 'fs-ann':
                 at = base + rc.a_mp_reach(1, 133, b'', rc.fs_rule(FS_RULES[idx]))
             elif mk == 'fs-wd':
@@ -251,7 +273,7 @@ class Run(object):
         elif k in ('vpn-ann2', 'fs-ann2'):
             side = op[-1]
             act = 'received' if side == 'peer' else 'send'
-            base = rc.a_origin(0) + rc.a_as_path([(2, [65002])], True)
+            base = rc.a_origin(0) + rc.a_as_path([(2, [65002])], self.as4)
             if k == 'vpn-ann2':
                 items = [(op[1], op[2]), (op[3], op[4])]
                 table = self.vpn_in if side == 'peer' else self.vpn_out
@@ -304,7 +326,7 @@ class Run(object):
                     del table[idx]
                     changed[act].add(fam)
                     self.nontrivial = True
-            base = rc.a_origin(0) + rc.a_as_path([(2, [65002])], True)
+            base = rc.a_origin(0) + rc.a_as_path([(2, [65002])], self.as4)
             if side == 'peer':
                 if k == 'fs-ann':
                     msg = rc.update(attrs=base + rc.a_mp_reach(1, 133, b'', rc.fs_rule(FS_RULES[idx])))
@@ -405,7 +427,8 @@ def run_ops(ops):
     while ncfg < len(ops) and ops[ncfg][0] == 'cfg':
         ncfg += 1
     ibgp = ['cfg', 'ibgp'] in ops[:ncfg]
-    run = Run(ibgp=ibgp)
+    # a leading ['cfg', 'as2']: the peer does not advertise the 4-octet-AS capability
+    run = Run(ibgp=ibgp, as4=['cfg', 'as2'] not in ops[:ncfg])
     for o in ops[:ncfg]:
         if o[1] == 'seg':
             run.sim.reactor.segments = o[2]
@@ -421,6 +444,7 @@ idxs = st.lists(st.integers(0, len(PREFIXES) - 1), min_size=1, max_size=3, uniqu
 op_strategy = st.one_of(
     st.tuples(st.just('ann'), idxs, st.integers(0, 4), side).map(list),
     st.tuples(st.just('wd'), idxs, side).map(list),
+    st.tuples(st.just('ann-big-as'), idxs, st.integers(0, 2)).map(list),
     st.tuples(st.just('wd'), idxs).map(lambda t: ['wd', t[1], 'dirty', 'peer']),
     st.tuples(st.just('ann'), idxs, st.integers(0, 4)).map(lambda t: ['ann', t[1], t[2], 'dirty', 'peer']),
     # the same prefix listed twice in one UPDATE's withdrawn routes / NLRI
@@ -474,7 +498,7 @@ def run_shard(spec, seed, col, tier):
         col.case({'ops': ops}, run.nontrivial, labels=['history', 'len-%d' % (len(ops) // 10 * 10)])
         for sig, detail in res:
             col.fail(sig, {'ops': ops}, detail)
-    hyp_run(col, st.tuples(st.sampled_from([[], [], [['cfg', 'ibgp']], [['cfg', 'seg', 3]], [['cfg', 'ibgp'], ['cfg', 'seg', 2]]]), st.lists(op_strategy, min_size=3, max_size=spec['steps'])).map(
+    hyp_run(col, st.tuples(st.sampled_from([[], [], [['cfg', 'ibgp']], [['cfg', 'seg', 3]], [['cfg', 'ibgp'], ['cfg', 'seg', 2]], [['cfg', 'as2']], [['cfg', 'as2'], ['cfg', 'ibgp']]]), st.lists(op_strategy, min_size=3, max_size=spec['steps'])).map(
         lambda t: t[0] + t[1]), body, seed, spec['examples'])
 
 
